@@ -6,6 +6,8 @@ import (
 	"fmt"
 	"go/constant"
 	"os"
+	"runtime/debug"
+	"runtime/pprof"
 	"sort"
 	"strings"
 	"sync"
@@ -94,13 +96,9 @@ func (sh *Shared) count(k string, n int) {
 	sh.res.Counters[k] += n
 	sh.mu.Unlock()
 }
-func (sh *Shared) noteFunc(f *ssa.Function) {
-	if isHarnessFunc(f) {
-		return
-	}
-	sh.mu.Lock()
-	sh.res.Funcs[f.String()]++
-	sh.mu.Unlock()
+func (e *Engine) count(k string, n int) { e.counters[k] += n }
+func (e *Engine) noteFunc(f *ssa.Function) {
+	e.funcs[f]++
 }
 func (sh *Shared) assertHit(entry, msg string, symbolic bool) {
 	sh.mu.Lock()
@@ -197,6 +195,9 @@ func (e *Engine) runPath(entry *ssa.Function, prefix []int) {
 	e.draws, e.nsym, e.observed = nil, 0, nil
 	e.newWork = nil
 	e.globals = map[*ssa.Global]*Obj{}
+	e.initRunning = nil
+	e.kb = map[string]bool{}
+	e.inInit = 0
 	e.excuses = map[string]*Term{}
 	e.strLits = map[string]*Term{}
 	e.symOrder = false
@@ -323,10 +324,21 @@ func normalisePanic(m string) string {
 
 func (sh *Shared) worker(entry *ssa.Function, wg *sync.WaitGroup, deadline time.Time, stats *solverStats) {
 	defer wg.Done()
-	e := &Engine{sh: sh, prog: sh.prog, solver: NewSolver(sh.cfg.SolverBin, sh.cfg.SolverArgs...), entryName: entry.Name()}
+	e := &Engine{sh: sh, prog: sh.prog, solver: NewSolver(sh.cfg.SolverBin, sh.cfg.SolverArgs...), entryName: entry.Name(),
+		funcs: map[*ssa.Function]int{}, counters: map[string]int{}}
 	defer func() {
 		stats.add(e.solver)
 		e.solver.Close()
+		sh.mu.Lock()
+		for f, n := range e.funcs {
+			if !isHarnessFunc(f) {
+				sh.res.Funcs[f.String()] += n
+			}
+		}
+		for k, n := range e.counters {
+			sh.res.Counters[k] += n
+		}
+		sh.mu.Unlock()
 	}()
 	for {
 		sh.mu.Lock()
@@ -476,8 +488,16 @@ func main() {
 	leafBin := flag.String("leaf", "", "leaf server binary (native-lifted pure functions)")
 	solver := flag.String("solver", "z3", "z3 | z3-new | cvc5")
 	under := flag.String("undertest", "github.com/grafana/cog", "package path prefix of the code under test")
+	cpuprof := flag.String("cpuprofile", "", "")
+	gcPercent := flag.Int("gcpercent", 600, "GOGC for the engine (the SSA program is a large, static live heap)")
 	flag.Parse()
+	debug.SetGCPercent(*gcPercent)
 	underTestPrefix = *under
+	if *cpuprof != "" {
+		f, _ := os.Create(*cpuprof)
+		pprof.StartCPUProfile(f)
+		defer pprof.StopCPUProfile()
+	}
 
 	cfg := Config{Tier: *tier, MaxDepth: *maxDepth, MaxSteps: *maxSteps, MaxPaths: *maxPaths, Timeout: *timeout, Witness: *witness, Workers: *workers}
 	switch *solver {
